@@ -440,3 +440,50 @@ func ZZ_C16_H5() {
 	zz.Cover("colliding-base-names", len(imports) >= 2)
 	zz.Assert("each-route-bound-to-its-package-alias-and-declared-name", ok)
 }
+
+// the registration methods of hertz's RouterGroup that the router template can name
+var zzRouterGroupMethods = []string{"GET", "POST", "PUT", "DELETE", "PATCH", "HEAD", "OPTIONS", "Any"}
+
+// ZZ_C16_H6: the verb as the IDL front ends spell it (thrift's tags give "ANY" and upper-case
+// verbs, protobuf's "Any", a hand-written template configuration may use lower case): whatever
+// the spelling, the registration statement names a method RouterGroup has, and it is the
+// declared verb.
+func ZZ_C16_H6() {
+	spellings := []string{"GET", "get", "Post", "DELETE", "options", "Any", "ANY", "any"}
+	canonical := []string{"GET", "GET", "POST", "DELETE", "OPTIONS", "Any", "Any", "Any"}
+	i := zz.Choose("spelling", len(spellings))
+	j := zz.Choose("secondSpelling", len(spellings))
+	sortRouter := zz.Choose("sortRouter", 2) == 1
+	root := NewRouterTree()
+	err := root.Update(&HttpMethod{Name: "MethodA", HTTPMethod: spellings[i], Path: "/a/b"}, "svc", "", sortRouter)
+	zz.Assert("declared-route-accepted", err == nil)
+	// a second route on the same path with another verb (or the same verb spelled differently:
+	// then the tool may refuse it as registered already)
+	err2 := root.Update(&HttpMethod{Name: "MethodB", HTTPMethod: spellings[j], Path: "/a/c"}, "svc", "", sortRouter)
+	zz.Assert("second-route-accepted", err2 == nil)
+	if err != nil || err2 != nil || root.DyeGroupName(false) != nil {
+		return
+	}
+	in := &zzInterp{}
+	in.g(root, &zzScope{vars: map[string]*zzDecl{}}, map[*RouterNode][]*RouterNode{})
+	zz.Cover("reached-assert", true)
+	ok := len(in.regs) == 2
+	for _, r := range in.regs {
+		known := false
+		for _, m := range zzRouterGroupMethods {
+			if r.verb == m {
+				known = true
+			}
+		}
+		if !known {
+			ok = false
+		}
+		if r.path == "/a/b" && r.verb != canonical[i] {
+			ok = false
+		}
+		if r.path == "/a/c" && r.verb != canonical[j] {
+			ok = false
+		}
+	}
+	zz.Assert("registration-names-a-router-group-method-for-the-declared-verb", ok)
+}
